@@ -18,6 +18,12 @@ package fsm
 //   before Restore is abandoned (AbandonCh closed) and was not before.
 //
 // Every difference L2/L3 can see is keyed individually: C02/query=<family>/field=<path>.
+//
+// Point in time: raft keeps applying entries while a snapshot is being written. The snapshot is therefore TAKEN
+// (FSM.Snapshot) at entry k but PERSISTED only after plan.Late further entries h[k:k+late] were applied to the same
+// FSM; the restored server must still equal the state as of k. Wall clock: the case runs inside a testing/synctest
+// bubble and the fake clock is advanced by plan.SkewNS right before the snapshot is taken (tokens written earlier may
+// have expired by then without having been reaped): nothing of that may change what the snapshot contains.
 
 import (
 	"bytes"
@@ -27,6 +33,10 @@ import (
 	"sort"
 	"strings"
 	"testing"
+	"testing/synctest"
+	"time"
+
+	"github.com/hashicorp/raft"
 
 	"github.com/hashicorp/consul-net-rpc/go-msgpack/codec"
 
@@ -283,6 +293,25 @@ func verifC02Run(f verifkit.F, c *verifkit.Case, cov *verifCoverage, plan *vs.FC
 	var resX []verifResult
 	points := map[int]verifC02Point{}
 	snaps := map[int][]byte{}
+	var pending raft.FSMSnapshot // taken at the first cut, persisted plan.Late entries later
+	pendingAt, persistAt := -1, -1
+	persistPending := func() {
+		if pending == nil {
+			return
+		}
+		sink := &verifSink{}
+		if err := pending.Persist(sink); err != nil {
+			f.Fatalf("snapshot Persist: %v", err)
+		}
+		pending.Release()
+		snaps[pendingAt] = sink.Bytes()
+		pending = nil
+	}
+	defer func() {
+		if pending != nil {
+			pending.Release()
+		}
+	}()
 	famsAtCut := map[int]int{}
 	derivedAtCut := map[int]bool{}
 	var fams verifFamilies
@@ -300,8 +329,21 @@ func verifC02Run(f verifkit.F, c *verifkit.Case, cov *verifCoverage, plan *vs.FC
 				}
 			}
 		}
-		if len(cuts) > 0 && cuts[0] == i {
-			snaps[i] = verifPersist(f, x)
+		if len(cuts) > 0 && cuts[0] == i && pendingAt < 0 {
+			if plan.SkewNS > 0 {
+				time.Sleep(time.Duration(plan.SkewNS)) // fake clock (synctest): wall time passes before the snapshot
+			}
+			snap, err := x.fsm.Snapshot()
+			if err != nil {
+				f.Fatalf("FSM.Snapshot: %v", err)
+			}
+			pending, pendingAt, persistAt = snap, i, i+plan.Late
+		}
+		if pending != nil && i >= persistAt {
+			if i > pendingAt {
+				c.Label("persists-after-later-applies")
+			}
+			persistPending()
 		}
 	}
 	for i := 0; ; i++ {
@@ -321,6 +363,12 @@ func verifC02Run(f verifkit.F, c *verifkit.Case, cov *verifCoverage, plan *vs.FC
 		c.Labelf("type=%s", vs.FTypeName(cmd.MsgType()))
 	}
 	n := len(cmds)
+	if pending != nil {
+		if n > pendingAt {
+			c.Label("persists-after-later-applies")
+		}
+		persistPending()
+	}
 	final := verifC02Observe(x)
 	if len(cuts) == 0 {
 		return
@@ -330,7 +378,7 @@ func verifC02Run(f verifkit.F, c *verifkit.Case, cov *verifCoverage, plan *vs.FC
 			cuts[i] = n // replay of a shortened history
 			if _, ok := points[n]; !ok {
 				points[n] = final
-				if i == 0 {
+				if i == 0 && snaps[n] == nil {
 					snaps[n] = verifPersist(f, x)
 				}
 			}
@@ -381,6 +429,30 @@ func verifC02Run(f verifkit.F, c *verifkit.Case, cov *verifCoverage, plan *vs.FC
 				c.Label("check-bound-session-ended-after-cut")
 			}
 		}
+		for _, r := range points[k].dump.Rows("sessions") {
+			if sc, ok := r["ServiceChecks"].([]interface{}); ok && len(sc) > 0 {
+				c.Label("service-check-bound-session-at-cut")
+				if !alive[fmt.Sprint(r["ID"])] && nodes[fmt.Sprint(r["Node"])] {
+					c.Label("service-check-bound-session-ended-after-cut")
+				}
+			}
+		}
+	}
+	// tokens that had expired (fake wall clock) but were not reaped when the snapshot was written
+	now := time.Now()
+	for _, r := range points[k].dump.Rows("acl-tokens") {
+		if exp, _ := r["ExpirationTime"].(string); exp != "" {
+			if tm, err := time.Parse(time.RFC3339Nano, exp); err == nil && tm.Before(now) {
+				c.Label("expired-unreaped-token-at-cut")
+				stillThere := false
+				for _, e := range final.dump.Rows("acl-tokens") {
+					stillThere = stillThere || e["AccessorID"] == r["AccessorID"]
+				}
+				if !stillThere {
+					c.Label("expired-token-reaped-after-cut")
+				}
+			}
+		}
 	}
 
 	// ---- Y: restore X's snapshot taken at k
@@ -409,7 +481,19 @@ func verifC02Run(f verifkit.F, c *verifkit.Case, cov *verifCoverage, plan *vs.FC
 			for ; at < cuts[ci]; at++ {
 				verifC02Step(rp, y, cmds, resX, at)
 			}
-			snapBytes = verifPersist(f, y)
+			snap2, err := y.fsm.Snapshot()
+			if err != nil {
+				f.Fatalf("FSM.Snapshot: %v", err)
+			}
+			for j := 0; j < plan.Late && at+j < n; j++ { // the old server keeps applying while the snapshot is written
+				verifC02Step(rp, y, cmds, resX, at+j)
+			}
+			sink := &verifSink{}
+			if err := snap2.Persist(sink); err != nil {
+				f.Fatalf("snapshot Persist: %v", err)
+			}
+			snap2.Release()
+			snapBytes = sink.Bytes()
 			y = verifNewReplica(f)
 			closers = append(closers, y)
 		}
@@ -497,19 +581,32 @@ func TestVerifC02Restore(t *testing.T) {
 		if rapid.IntRange(0, 9).Draw(t, "lagging") >= 7 {
 			plan.Reps = 1 + rapid.IntRange(0, k).Draw(t, "lag")
 		}
-		var g *verifLogGen
-		verifC02Run(t, c, cov, plan, func(x *verifReplica, i int) *vs.FCmd {
-			if g == nil {
-				g = verifNewLogGen(t, x)
-			}
-			if i >= n {
-				return nil
-			}
-			return g.next(t)
+		if rapid.IntRange(0, 9).Draw(t, "late") >= 3 {
+			plan.Late = rapid.IntRange(1, 8).Draw(t, "latecmds")
+		}
+		if rapid.IntRange(0, 9).Draw(t, "clock") >= 5 {
+			plan.SkewNS = int64(verifC02Skews[rapid.IntRange(0, len(verifC02Skews)-1).Draw(t, "clockskew")])
+		}
+		rapid.SyncTest(t, func(t *rapid.T) {
+			var g *verifLogGen
+			verifC02Run(t, c, cov, plan, func(x *verifReplica, i int) *vs.FCmd {
+				if g == nil {
+					g = verifNewLogGen(t, x)
+				}
+				if i == k {
+					g.w.Clock = g.w.Clock.Add(time.Duration(plan.SkewNS)) // the leader's clock is the wall clock
+				}
+				if i >= n {
+					return nil
+				}
+				return g.next(t)
+			})
 		})
 		c.Done()
 	})
 }
+
+var verifC02Skews = []time.Duration{time.Minute, 90 * time.Minute, 30 * time.Hour, 30 * time.Hour, 40 * 24 * time.Hour}
 
 // TestVerifC02Replay re-executes saved histories and the fixed witnesses of recorded findings without rapid.
 func TestVerifC02Replay(t *testing.T) {
@@ -519,11 +616,13 @@ func TestVerifC02Replay(t *testing.T) {
 		plan, cmds := verifLoadCmds(t, path)
 		c := rec.NewCase()
 		c.Label("replay")
-		verifC02Run(t, c, nil, plan, func(_ *verifReplica, i int) *vs.FCmd {
-			if i >= len(cmds) {
-				return nil
-			}
-			return cmds[i]
+		synctest.Test(t, func(st *testing.T) {
+			verifC02Run(st, c, nil, plan, func(_ *verifReplica, i int) *vs.FCmd {
+				if i >= len(cmds) {
+					return nil
+				}
+				return cmds[i]
+			})
 		})
 		c.Done()
 	}
